@@ -48,3 +48,28 @@ Qed.
 (* an absent graph has no text *)
 Theorem serialize_graph_absent f s gid : extract s gid = None -> serialize_graph s gid f = None.
 Proof. intro E. unfold serialize_graph. rewrite E. reflexivity. Qed.
+
+(* a refused import (some node without NodeID) under a graph id that is not in use leaves the store exactly as it was
+   - in particular nothing exists under the refused id and the id counter is where it was *)
+Theorem add_graph_refused s gid g :
+  existsb (has_gid gid) (s_nodes s) = false -> graph_shape g = true -> graph_ids_ok g = false ->
+  add_graph s gid g = (s, RErrImport).
+Proof.
+  intros FR SH BAD. destruct (graph_shape_parts g SH) as [ND CL].
+  unfold add_graph. rewrite FR, (relabel_spec _ g ND CL).
+  assert (E : forallb (fun n => truthy (pget P_NodeID (snd n))) (g_nodes (relabelled (s_next s) g)) = false).
+  { unfold graph_ids_ok in BAD. rewrite <- BAD. apply (forallb_snd (fun ps => truthy (pget P_NodeID ps))).
+    simpl. apply map_snd_zip_ids. }
+  rewrite E. reflexivity.
+Qed.
+
+Theorem import_refused ep s t gid g :
+  is_direct ep = false -> text_graph t = Some g -> graph_shape g = true -> graph_ids_ok g = false ->
+  existsb (has_gid gid) (s_nodes s) = false ->
+  import_via ep s t gid = (s, RErrImport).
+Proof.
+  intros D T SH BAD FR. unfold text_graph in T.
+  assert (I : import_string s t gid = (s, RErrImport)).
+  { unfold import_string. rewrite T. destruct (nonempty g); [apply add_graph_refused; assumption|reflexivity]. }
+  destruct ep; try discriminate; exact I.
+Qed.
